@@ -302,7 +302,7 @@ def run_options_tlc(ctx, tests, infeasible, excl, rej, with_core):
         "Tests": "<<" + ", ".join("[" + ", ".join(f"{o} |-> {q(t[o])}" for o in DOMAIN) + "]" for t in tests) + ">>",
         "Emit": "TRUE",
     }
-    t_, c_ = tlc.write_mc(d, "MC_CliOptions", "CliOptions", consts, ["SPECIFICATION Spec", "INVARIANT SuiteAtStart", "CHECK_DEADLOCK FALSE"])
+    t_, c_ = tlc.write_mc(d, "MC_CliOptions", "CliOptions", consts, ["SPECIFICATION Spec", "INVARIANT SuiteOK", "CHECK_DEADLOCK FALSE"])
     res = tlc.run(t_, c_, workers=1, tag="c19", timeout=1500, heap="6g")
     shutil.rmtree(d, ignore_errors=True)
     ctx.tlc(res, f"CliOptions: {len(tests)} tests, {len(excl)} excluded pairs, {len(rej)} refused pairs, core={'on' if with_core else 'off'}")
@@ -310,8 +310,10 @@ def run_options_tlc(ctx, tests, infeasible, excl, rej, with_core):
         raise Machinery(f"the generated suite does not satisfy CliOptions.Suite ({res.violations[0].name})")
     exp = {}
     for p in res.prints:
-        if isinstance(p, tuple) and len(p) == 3 and p[0] == "TEST":
-            exp[p[1] - 1] = bool(p[2])
+        if isinstance(p, tuple) and len(p) == 2 and p[0] == "ACCEPT":
+            seq = p[1]
+            for i, v in enumerate(seq if isinstance(seq, (tuple, list)) else [seq[k] for k in sorted(seq)]):
+                exp[i] = bool(v)
     if len(exp) != len(tests):
         raise Machinery(f"CliOptions emitted {len(exp)} verdicts for {len(tests)} tests")
     return exp
@@ -496,6 +498,24 @@ def initial_values(o, dic):
     return res
 
 
+# Raw parameters that torchtree-cli hands to the sampler without any explicit prior on the pinned tree (measured over the
+# thorough suite): the density over them is flat on the constrained scale (their Jacobian term is counted).  A parameter
+# outside this list that turns up without a prior is reported: the configuration no longer targets the density it names.
+IMPLICIT_FLAT = [
+    (r"^sitemodel(\.12|\.3)?\.pinv\.unres$", lambda t: True),
+    (r"^coalescent\.growth$", lambda t: t["treeprior"] == "piecewise-exponential"),
+    (r"^bdsk\.s\.unres$", lambda t: t["treeprior"] == "bdsk"),
+    (r"^constant\.psi\.unres$", lambda t: t["treeprior"] == "bd-constant"),
+    (r"^tree\.(ratios|shifts|root_height|root_height\.unshifted)\.unres$", lambda t: t["treeprior"] == "none"),
+    (r"^substmodel\.kappa\.unres$", lambda t: t["model"] == "K80"),
+    (r"^srd06\.mu\.unres$", lambda t: t["model"] == "SRD06"),
+]
+
+
+def implicit_flat(rid, t):
+    return any(re.match(pat, rid) and cond(t) for pat, cond in IMPLICIT_FLAT)
+
+
 def sig(t, keys):
     return ",".join(f"{k}={t[k]}" for k in keys)
 
@@ -560,6 +580,13 @@ def run(ctx: Ctx):
             if not ok:
                 ctx.violation(f"C19:init:{what}:{sig(t, ['clock', 'heights', 'treeprior'])}", f"torchtree-cli {' '.join(r['argv'][:1] + r['argv'][5:])}: requested {what} = {want}, "
                               f"the constrained parameter starts at {got}", rep)
+        for rid in r["info"].get("noprior", []):
+            ctx.cov.setdefault("raw_without_prior", {}).setdefault(rid, 0)
+            ctx.cov["raw_without_prior"][rid] += 1
+            if not implicit_flat(rid, t):
+                ctx.violation(f"C19:no-prior:{rid}:{t['model']}", f"torchtree-cli {' '.join(r['argv'][:1] + r['argv'][5:])}: {rid} is handed to the "
+                              f"{'optimiser' if t['cmd'] in ('map', 'advi') else 'sampler'} although no prior is placed on it (not one of the parameters the CLI "
+                              "leaves with an implicit flat prior): the target is not the density of the requested model", rep)
         if r["info"].get("jacobian_undecided"):
             ctx.add("jacobian_rule_undecided")
             ctx.cov.setdefault("jacobian_undecided_samples", [])
